@@ -2,6 +2,7 @@
 _C15_UNITS = CORE + ["Mesh/TetrahedralMeshTopologyKernel.cc", "Mesh/TetrahedralMeshIterators.cc",
                      "Unstable/Topology/TetTopology.cc", "Unstable/Topology/TriangleTopology.cc"]
 # bases of harness/c15_common.h (built with the tetrahedral kernel's own add_cell): id -> (nV, nE, nF, nC)
+_C15_UNITS_PROPS = _C15_UNITS + ["FileManager/TypeNames.cc"]   # int properties reference typeName<int>() (needed by the native replay link)
 _T_ONE, _T_FACE, _T_RING, _T_EDGE, _T_VERTEX = range(5)
 _C15_COUNTS = {_T_ONE: (4, 6, 4, 1), _T_FACE: (5, 9, 7, 2), _T_RING: (5, 10, 9, 3), _T_EDGE: (6, 11, 8, 2), _T_VERTEX: (7, 12, 8, 2)}
 _C15_BASES = "bases: 1 tet; 2 tets sharing a face; 3 tets closed around an edge; 2 tets sharing only an edge; 2 tets sharing only a vertex"
@@ -72,7 +73,7 @@ PROPS["C15"] = dict(
          timeout={"quick": 300, "thorough": 900}, mem_gb=4,
          bounds="K=1 inherited operation (delete_vertex/edge/face/cell for every entity, swap_*_indices for every ordered pair; then collect_garbage in deferred mode) chosen by a symbolic "
                 "selector (8 constant argument tuples per query) on 1 tet / 2 tets sharing a face; afterwards every stored face has valence 3, every stored cell valence 4, every live cell 4 distinct vertices"),
-    dict(name="c15-collapse", harness="C15_collapse.cpp", entries=["harness_c15_collapse"], units=_C15_UNITS, unwind=64, checks="none", object_bits=13, witness_any=True,
+    dict(name="c15-collapse", harness="C15_collapse.cpp", entries=["harness_c15_collapse"], units=_C15_UNITS_PROPS, unwind=64, checks="none", object_bits=13, witness_any=True,
          shards={"quick": _c15_collapse([_T_ONE], [0, 1, 2]) + _c15_collapse([_T_FACE], [0, 1, 2], [2, 3, 6, 7], per=2) + _c15_collapse([_T_FACE], [3], [2, 3], per=2) + _c15_deep([_T_FACE], [0, 1], [6]),
                  "thorough": _c15_collapse([_T_ONE], range(4)) + _c15_collapse([_T_FACE], range(4), per=2) + _c15_collapse([_T_RING, _T_EDGE, _T_VERTEX], [0, 1, 2], per=2)
                              + _c15_deep([_T_FACE, _T_RING], [0]) + _c15_deep([_T_EDGE], [3])},
